@@ -215,6 +215,7 @@ const preludeCommon = `(declare-sort Str 0)
 (declare-datatypes ((Iface 0)) (((mkI (ity Int) (ival Int)))))
 (declare-datatypes ((Slice 0)) (((mkSl (sbase Int) (soff Int) (slen Int) (scap Int)))))
 (declare-fun sidx (Slice Int) Int)
+(declare-fun strsrc (Int) Str)
 (assert (forall ((s Slice) (i Int)) (! (= (sidx s i) (+ (soff s) i)) :pattern ((sidx s i)))))
 (declare-fun subsl (Slice Int Int Int) Slice)
 (assert (forall ((s Slice) (l Int) (h Int) (m Int)) (! (= (subsl s l h m) (mkSl (sbase s) (+ (soff s) l) (- h l) (- m l))) :pattern ((subsl s l h m)))))
